@@ -32,7 +32,7 @@ def execute(scn, rng):
 
 def plan(tier):
     q = tier == "quick"
-    return [("repro", 500 if q else 10000), ("indep", 200 if q else 3000)]
+    return [("repro", 350 if q else 10000), ("indep", 150 if q else 3000)]
 
 
 def sample(scn, out):
